@@ -37,6 +37,7 @@ func init() {
 			{ID: "C13-R13", Title: "parent tests are component-wise", Floor: 1, Run: parentTestsAreComponentWise},
 			{ID: "C13-R14", Title: "mounts hand their source a rooted path", Floor: 1, Run: mountsHandTheirSourceARootedPath},
 			{ID: "C13-R15", Title: "mount points are normalised when they are registered", Floor: 1, Run: mountPointsAreNormalisedWhenTheyAreRegistered},
+			{ID: "C13-R16", Title: "mount-relative paths go to the mount only", Floor: 5, Run: mountRelativePathsGoToTheMountOnly},
 		},
 	})
 }
